@@ -36,6 +36,7 @@ def task_enum(ctx, col, shard, L):
 def task_random(ctx, col, shard, n, max_ops):
     strat = rhist.st_ragged_history(max_ops=max_ops, extra=('copy', 'overwrite'))
     hyp_search(ctx, col, strat, lambda s: execute(ctx, s), shard_seed(ctx, shard) + 7, n)
+    hyp_search(ctx, col, rhist.st_growth_history(max_ops=max_ops + 4), lambda s: execute(ctx, s), shard_seed(ctx, shard) + 13, max(10, n // 3))
 
 
 def tasks(ctx):
